@@ -7,19 +7,23 @@ Import ListNotations.
 (* The full statement
      forall nv ops, run nv ops = map Ok (spec_run nv ops)
    ("after every operation every variable shows exactly the text and the length of an
-   independent byte string") is FALSE of the faithful model, because the code is wrong for
-   part of the alphabet: see the ..._refuted theorems below.  It holds for EVERY history in
-   the alphabet Spec.pre (a condition on the abstract values only): all variables among the
-   nv slots; no resize / reserve / assign(text, n); no a.append(a); no append of nothing to
-   an empty string; the non-const operator[] (with a non-zero byte), tolower and toupper on
-   non-empty strings only.  For such histories the model of the reference-counted storage
-   (EnsureAlloced with all its early returns and its reallocation path that leaves alloced
-   and len at 0, EnsureDataWritable, AddRef/DelRef, the raw copy/cat/copyn loops) never
-   crashes (no null m_data dereference, no store beyond an allocation) and after every
-   operation shows, for every variable, the c_str() and the length() of the specification's
-   byte string, and returns its operator[] / == / cmp / icmp results.  Since the
-   specification changes only the variable an operation names, strings that share storage
-   never observe each other's modifications. *)
+   independent byte string") needs preconditions: see the ..._refuted theorems below.  It
+   holds for EVERY history in the alphabet Spec.pre - the whole alphabet (assignment of a
+   literal, copy assignment, copy construction, v = w.c_str(), the three appends including
+   a.append(a) and the append of nothing to an empty string, operator[] read and write,
+   CapLength, -=, clear, tolower/toupper, resize, reserve, assign(text, n), ==/cmp/icmp) under
+   the genuine preconditions only: variables among the nv slots; the non-const operator[]
+   (with a non-zero byte), tolower and toupper on strings that have storage (the code
+   asserts m_data); C-string operations on strings without 0 bytes (a string holds 0 bytes
+   only between a growing resize() and its next assignment).  For such histories the model
+   of the reference-counted storage (EnsureAlloced with all its early returns and its
+   reallocation path, EnsureDataWritable, AddRef/DelRef, the raw copy/cat/copyn loops, the
+   temporary of a self-append) never crashes (no null m_data dereference, no store beyond
+   an allocation, no read of a byte it did not write) and after every operation shows, for
+   every variable, the c_str() and the length() of the specification's byte string, and
+   returns its operator[] / == / cmp / icmp results.  Since the specification changes only
+   the variable an operation names, strings that share storage never observe each other's
+   modifications. *)
 Theorem C18str_refines_bytes_on_safe_alphabet :
   forall (nv : nat) (ops : list op),
     safe nv ops = true -> run nv ops = map Ok (spec_run nv ops).
@@ -33,77 +37,91 @@ Theorem C18str_spec_changes_only_the_target :
 Proof. exact spec_frame. Qed.
 Print Assumptions C18str_spec_changes_only_the_target.
 
-(* ---- the refuted part of the alphabet (each history behaves on the real code as in the
+(* ---- why the preconditions are needed (each history behaves on the real code as in the
    model: props/C18str.py re-runs them on every check) --------------------------------- *)
 Theorem C18str_full_alphabet_refuted :
   exists nv ops, run nv ops <> map Ok (spec_run nv ops).
 Proof. exact full_alphabet_refuted. Qed.
 Print Assumptions C18str_full_alphabet_refuted.
 
-Theorem C18str_resize_grow_refuted :
-  run 1 [OSetLit 0 hello; OResize 0 8] <> map Ok (spec_run 1 [OSetLit 0 hello; OResize 0 8]).
-Proof. exact resize_grow_differs. Qed.
-Print Assumptions C18str_resize_grow_refuted.
+(* the code's asserted precondition m_data != null *)
+Theorem C18str_tolower_without_storage_refuted :
+  run 1 [OLower 0] <> map Ok (spec_run 1 [OLower 0]).
+Proof. exact tolower_null_differs. Qed.
+Print Assumptions C18str_tolower_without_storage_refuted.
 
-Theorem C18str_resize_shrink_refuted :
-  run 1 [OSetLit 0 hello; OResize 0 3] <> map Ok (spec_run 1 [OSetLit 0 hello; OResize 0 3]).
-Proof. exact resize_shrink_differs. Qed.
-Print Assumptions C18str_resize_shrink_refuted.
+Theorem C18str_index_without_storage_refuted :
+  run 1 [OSetChar 0 0 65] <> map Ok (spec_run 1 [OSetChar 0 0 65]).
+Proof. exact index_null_differs. Qed.
+Print Assumptions C18str_index_without_storage_refuted.
 
-Theorem C18str_resize_null_refuted :
-  run 1 [OResize 0 0] <> map Ok (spec_run 1 [OResize 0 0]).
-Proof. exact resize_null_differs. Qed.
-Print Assumptions C18str_resize_null_refuted.
+(* strings that hold 0 bytes after a growing resize *)
+Theorem C18str_realloc_after_resize_refuted :
+  run 1 [OResize 0 3; OReserve 0 20; OSetChar 0 0 65] <>
+  map Ok (spec_run 1 [OResize 0 3; OReserve 0 20; OSetChar 0 0 65]).
+Proof. exact realloc_after_resize_differs. Qed.
+Print Assumptions C18str_realloc_after_resize_refuted.
 
-Theorem C18str_reserve_refuted :
-  run 1 [OSetLit 0 hello; OReserve 0 20] <> map Ok (spec_run 1 [OSetLit 0 hello; OReserve 0 20]).
-Proof. exact reserve_differs. Qed.
-Print Assumptions C18str_reserve_refuted.
+Theorem C18str_unshare_after_resize_refuted :
+  run 2 [OResize 0 3; OCopy 1 0; OSetChar 0 1 66; OSetChar 0 0 65] <>
+  map Ok (spec_run 2 [OResize 0 3; OCopy 1 0; OSetChar 0 1 66; OSetChar 0 0 65]).
+Proof. exact unshare_after_resize_differs. Qed.
+Print Assumptions C18str_unshare_after_resize_refuted.
 
-Theorem C18str_reserve_then_append_refuted :
-  run 1 [OSetLit 0 hello; OReserve 0 20; OAppendLit 0 [88%N]] <>
-  map Ok (spec_run 1 [OSetLit 0 hello; OReserve 0 20; OAppendLit 0 [88%N]]).
-Proof. exact reserve_append_differs. Qed.
-Print Assumptions C18str_reserve_then_append_refuted.
+Theorem C18str_append_after_resize_refuted :
+  run 1 [OResize 0 8; OAppendLit 0 [88; 89]%N] <> map Ok (spec_run 1 [OResize 0 8; OAppendLit 0 [88; 89]%N]).
+Proof. exact append_after_resize_differs. Qed.
+Print Assumptions C18str_append_after_resize_refuted.
 
-Theorem C18str_assign_null_refuted :
-  run 1 [OAssignN 0 []] <> map Ok (spec_run 1 [OAssignN 0 []]).
-Proof. exact assign_null_differs. Qed.
-Print Assumptions C18str_assign_null_refuted.
+Theorem C18str_assign_own_cstr_after_resize_refuted :
+  run 1 [OSetLit 0 hello; OResize 0 8; OAssignCstr 0 0] <>
+  map Ok (spec_run 1 [OSetLit 0 hello; OResize 0 8; OAssignCstr 0 0]).
+Proof. exact assign_own_cstr_after_resize_differs. Qed.
+Print Assumptions C18str_assign_own_cstr_after_resize_refuted.
 
-Theorem C18str_assign_after_growth_refuted :
-  run 1 [OSetLit 0 [104; 105]%N; OAppendLit 0 hello_world; OAssignN 0 [120%N]] <>
-  map Ok (spec_run 1 [OSetLit 0 [104; 105]%N; OAppendLit 0 hello_world; OAssignN 0 [120%N]]).
-Proof. exact assign_after_growth_differs. Qed.
-Print Assumptions C18str_assign_after_growth_refuted.
+(* ---- regressions: the twelve histories that were refuted before the fixes 913439b, b034b9f,
+   d63a379, c0a3b58 are now inside the alphabet of the theorem ------------------------------ *)
+Example C18str_regression_histories_are_safe :
+  forallb (fun c => safe (fst c) (snd c))
+    [(1, [OSetLit 0 hello; OResize 0 8]);
+     (1, [OSetLit 0 hello; OResize 0 3]);
+     (1, [OResize 0 0]);
+     (1, [OSetLit 0 hello; OReserve 0 20]);
+     (1, [OSetLit 0 hello; OReserve 0 20; OAppendLit 0 [88%N]]);
+     (1, [OAssignN 0 []]);
+     (1, [OSetLit 0 [104; 105]%N; OAppendLit 0 hello_world; OAssignN 0 [120%N]]);
+     (1, [OAppendLit 0 []]);
+     (2, [OAppendStr 0 1]);
+     (1, [OSetLit 0 [97; 98]%N; OAppendStr 0 0]);
+     (2, [OSetLit 0 abc; OMinus 0 3; OCopy 1 0; OSetChar 0 0 65]);
+     (2, [OSetLit 0 abc; OCap 0 0; OCopy 1 0; OLower 0])] = true.
+Proof. vm_compute. reflexivity. Qed.
 
-Theorem C18str_append_empty_to_empty_refuted :
-  run 1 [OAppendLit 0 []] <> map Ok (spec_run 1 [OAppendLit 0 []]).
-Proof. exact append_empty_differs. Qed.
-Print Assumptions C18str_append_empty_to_empty_refuted.
+Example C18str_resize_grow_now :
+  run 1 [OSetLit 0 hello; OResize 0 8; OSetChar 0 6 33; OSetChar 0 5 32] =
+  [Ok (RNone, [(hello, 5)]); Ok (RNone, [(hello, 8)]); Ok (RNone, [(hello, 8)]);
+   Ok (RNone, [([104; 101; 108; 108; 111; 32; 33]%N, 8)])].
+Proof. vm_compute. reflexivity. Qed.
 
-Theorem C18str_append_str_empty_to_empty_refuted :
-  run 2 [OAppendStr 0 1] <> map Ok (spec_run 2 [OAppendStr 0 1]).
-Proof. exact append_str_empty_differs. Qed.
-Print Assumptions C18str_append_str_empty_to_empty_refuted.
+Example C18str_resize_shrink_now :
+  run 1 [OSetLit 0 hello; OResize 0 3] = [Ok (RNone, [(hello, 5)]); Ok (RNone, [([104; 101; 108]%N, 3)])].
+Proof. vm_compute. reflexivity. Qed.
 
-Theorem C18str_self_append_refuted :
-  run 1 [OSetLit 0 [97; 98]%N; OAppendStr 0 0] <>
-  map Ok (spec_run 1 [OSetLit 0 [97; 98]%N; OAppendStr 0 0]).
-Proof. exact self_append_differs. Qed.
-Print Assumptions C18str_self_append_refuted.
+Example C18str_reserve_then_append_now :
+  run 1 [OSetLit 0 hello; OReserve 0 20; OAppendLit 0 [88%N]] =
+  [Ok (RNone, [(hello, 5)]); Ok (RNone, [(hello, 5)]); Ok (RNone, [([104; 101; 108; 108; 111; 88]%N, 6)])].
+Proof. vm_compute. reflexivity. Qed.
 
-Theorem C18str_index_on_shared_empty_refuted :
-  run 2 [OSetLit 0 abc; OMinus 0 3; OCopy 1 0; OSetChar 0 0 65] <>
-  map Ok (spec_run 2 [OSetLit 0 abc; OMinus 0 3; OCopy 1 0; OSetChar 0 0 65]).
-Proof. exact index_shared_empty_differs. Qed.
-Print Assumptions C18str_index_on_shared_empty_refuted.
+Example C18str_self_append_now :
+  run 1 [OSetLit 0 [97; 98]%N; OAppendStr 0 0] =
+  [Ok (RNone, [([97; 98]%N, 2)]); Ok (RNone, [([97; 98; 97; 98]%N, 4)])].
+Proof. vm_compute. reflexivity. Qed.
 
-Theorem C18str_tolower_on_shared_empty_refuted :
-  run 2 [OSetLit 0 abc; OCap 0 0; OCopy 1 0; OLower 0] <>
-  map Ok (spec_run 2 [OSetLit 0 abc; OCap 0 0; OCopy 1 0; OLower 0]).
-Proof. exact tolower_shared_empty_differs. Qed.
-Print Assumptions C18str_tolower_on_shared_empty_refuted.
+Example C18str_empty_cases_now :
+  run 2 [OAppendLit 0 []; OAppendStr 1 1; OResize 1 0; OAssignN 0 []; OLower 0; OSetChar 1 0 65] =
+  [Ok (RNone, [([], 0); ([], 0)]); Ok (RNone, [([], 0); ([], 0)]); Ok (RNone, [([], 0); ([], 0)]);
+   Ok (RNone, [([], 0); ([], 0)]); Ok (RNone, [([], 0); ([], 0)]); Ok (RNone, [([], 0); ([], 0)])].
+Proof. vm_compute. reflexivity. Qed.
 
 (* ---- non-vacuity: concrete histories ------------------------------------------------------ *)
 
@@ -132,22 +150,15 @@ Example C18str_model_history :
    Ok (RChar 97, [([97]%N, 1); ([88; 98; 99; 97; 98; 99; 33]%N, 7); ([97; 98]%N, 2)])].
 Proof. vm_compute. reflexivity. Qed.
 
-(* what the model (and the real code) does on the first refuted history: after resize(8) the
-   text is empty while the length is 8; the specification keeps "hello" *)
-Example C18str_resize_in_the_model :
-  run 1 [OSetLit 0 hello; OResize 0 8] =
-  [Ok (RNone, [(hello, 5)]); Ok (RNone, [([], 8)])].
+(* what the model (and the real code) still does behind a 0 byte: after resize(3) and a
+   reserve that reallocates, only the C string was copied; once the first byte is set,
+   c_str() finds no terminator inside the storage *)
+Example C18str_realloc_after_resize_in_the_model :
+  run 1 [OResize 0 3; OReserve 0 20; OSetChar 0 0 65] =
+  [Ok (RNone, [([], 3)]); Ok (RNone, [([], 3)]); Crash Overflow].
 Proof. vm_compute. reflexivity. Qed.
 
-Example C18str_resize_in_the_spec :
-  spec_run 1 [OSetLit 0 hello; OResize 0 8] =
-  [(RNone, [(hello, 5)]); (RNone, [(hello, 8)])].
-Proof. vm_compute. reflexivity. Qed.
-
-(* a.append(a) writes beyond its storage; appending nothing to a null string dereferences null *)
-Example C18str_self_append_in_the_model :
-  run 1 [OSetLit 0 [97; 98]%N; OAppendStr 0 0] = [Ok (RNone, [([97; 98]%N, 2)]); Crash Overflow].
-Proof. vm_compute. reflexivity. Qed.
-
-Example C18str_append_nothing_in_the_model : run 1 [OAppendLit 0 []] = [Crash NullDeref].
+Example C18str_realloc_after_resize_in_the_spec :
+  spec_run 1 [OResize 0 3; OReserve 0 20; OSetChar 0 0 65] =
+  [(RNone, [([], 3)]); (RNone, [([], 3)]); (RNone, [([65]%N, 3)])].
 Proof. vm_compute. reflexivity. Qed.
